@@ -1,1 +1,2 @@
 pub mod bank;
+pub mod ratio;
